@@ -303,37 +303,52 @@ func dispatch(op Op) (interface{}, error) {
 
 	case "git":
 		var a struct {
-			Log string `json:"log"` // file holding the log text
+			Log  string   `json:"log"`  // file holding the log text
+			Logs []string `json:"logs"` // or several, parsed one after the other in this process
 		}
 		if err := json.Unmarshal(op.Args, &a); err != nil {
 			return nil, err
 		}
-		raw, err := os.ReadFile(a.Log)
-		if err != nil {
-			return nil, err
+		one := func(path string) (interface{}, error) {
+			raw, err := os.ReadFile(path)
+			if err != nil {
+				return nil, err
+			}
+			commits := git.BuildMessageByInput(string(raw))
+			commitsJSON, _ := json.Marshal(commits)
+			var buf bytes.Buffer
+			git.ShowChangeLogSummary(commits, &buf)
+			ages := git.CalculateCodeAge(commits)
+			type age struct {
+				EntityName string
+				Age        string
+			}
+			var agesOut []age
+			for _, a := range ages {
+				agesOut = append(agesOut, age{a.EntityName, a.Age.Format("2006-01-02")})
+			}
+			return map[string]interface{}{
+				"commits":   json.RawMessage(commitsJSON),
+				"team":      git.GetTeamSummary(commits),
+				"age":       agesOut,
+				"top":       git.GetTopAuthors(commits),
+				"basic":     git.BasicSummary(commits),
+				"changemap": git.BuildChangeMap(commits),
+				"changelog": buf.String(),
+			}, nil
 		}
-		commits := git.BuildMessageByInput(string(raw))
-		commitsJSON, _ := json.Marshal(commits)
-		var buf bytes.Buffer
-		git.ShowChangeLogSummary(commits, &buf)
-		ages := git.CalculateCodeAge(commits)
-		type age struct {
-			EntityName string
-			Age        string
+		if len(a.Logs) == 0 {
+			return one(a.Log)
 		}
-		var agesOut []age
-		for _, a := range ages {
-			agesOut = append(agesOut, age{a.EntityName, a.Age.Format("2006-01-02")})
+		var all []interface{}
+		for _, l := range a.Logs {
+			r, err := one(l)
+			if err != nil {
+				return nil, err
+			}
+			all = append(all, r)
 		}
-		return map[string]interface{}{
-			"commits":   json.RawMessage(commitsJSON),
-			"team":      git.GetTeamSummary(commits),
-			"age":       agesOut,
-			"top":       git.GetTopAuthors(commits),
-			"basic":     git.BasicSummary(commits),
-			"changemap": git.BuildChangeMap(commits),
-			"changelog": buf.String(),
-		}, nil
+		return all, nil
 
 	case "cli":
 		var a struct {
